@@ -103,6 +103,113 @@ def reader_layout(chk, fn):
     return out
 
 
+def long_rule(chk, fx):
+    VALUE = 'crates/erg_compiler/ty/value.rs'
+    chk.rule('C15-R6', 'a Nat written as marshal TYPE_LONG is normalized: the digit count in the header equals the number of 15-bit digits of the value (no leading zero digit, '
+                       'which CPython rejects as "unnormalized long data") — either it is the length of the vector filled by `while rest > 0 { push(rest & 0x7fff); rest >>= 15 }`, '
+                       'or an arithmetic expression over the bit length that equals ceil(bits / 15) for every bit length from 32 to 64')
+    f = fx.fn(VALUE, 'ValueObj::into_bytes')
+    if not chk.need(f is not None, 'ValueObj::into_bytes not found'):
+        return
+    # the block that writes the TYPE_LONG prefix
+    blocks = [b for b in T.walk(f['body']) if b.get('k') == 'Block' and any(x.get('k') == 'Path' and (x.get('d') or '').endswith('DataTypePrefix::Long') for x in T.walk(b))]
+    if not chk.need(blocks, 'into_bytes: no block writes DataTypePrefix::Long'):
+        return
+    def has_count(b):
+        return any(c.get('k') == 'MCall' and c['n'] == 'to_le_bytes' and T.peel(c['r']).get('k') == 'Cast' for c in T.calls(b))
+    blocks = [b for b in blocks if has_count(b) and b.get('s')] or blocks
+    blk = min(blocks, key=lambda b: len(T.show(b)))
+    env = {}
+    for n in T.walk(blk):
+        if n.get('k') == 'Let' and n.get('init') is not None and n['pat'].get('k') == 'Bind':
+            env[n['pat']['n']] = n['init']
+    counts = []
+    for c in T.calls(blk):
+        if c.get('k') == 'MCall' and c['n'] == 'to_le_bytes':
+            r = T.peel(c['r'])
+            if r.get('k') == 'Cast':
+                inner = T.peel(r['x'])
+                tyname = (fx.file(VALUE)['types'][r['ty']] if isinstance(r.get('ty'), int) else '')
+                if tyname == 'i32':
+                    counts.append(inner)
+    if not chk.need(len(counts) == 1, 'into_bytes: the digit count `(.. as i32).to_le_bytes()` of the TYPE_LONG header was not found (%d)' % len(counts)):
+        return
+    cnt = counts[0]
+    where = 'ValueObj::into_bytes'
+
+    def normalizing_loop(vec):
+        for lp in T.walk(blk):
+            if lp.get('k') != 'Loop' or lp.get('src') != 'While':
+                continue
+            inner = T.stmts_of(lp['b'])
+            if not inner or T.unsemi(inner[0]).get('k') != 'If':
+                continue
+            cond = T.peel(T.unsemi(inner[0])['c'])
+            if not (cond.get('k') == 'Binary' and cond['op'] in ('>', '!=') and T.lit_int(T.peel(cond['y'])) == 0 and T.peel(cond['x']).get('k') == 'Local'):
+                continue
+            var = T.peel(cond['x'])['n']
+            body = T.unsemi(inner[0])['t']
+            pushes = [p for p in T.calls(body) if p.get('k') == 'MCall' and p['n'] == 'push' and T.peel(p['r']).get('n') == vec]
+            masks = [b for p in pushes for b in T.walk(p) if b.get('k') == 'Binary' and b['op'] == '&' and 0x7fff in (T.lit_int(T.peel(b['x'])), T.lit_int(T.peel(b['y'])))]
+            shifts = [a for a in T.walk(body) if a.get('k') == 'AssignOp' and a.get('op') == '>>=' and T.peel(a['x']).get('n') == var and T.lit_int(T.peel(a['y'])) == 15]
+            if len(pushes) == 1 and masks and shifts:
+                return True
+        return False
+
+    def eval_bits(e, bl):
+        e = T.peel(e)
+        v = T.lit_int(e)
+        if v is not None:
+            return v
+        k = e.get('k')
+        if k == 'Cast':
+            return eval_bits(e['x'], bl)
+        if k == 'Local' and e['n'] in env:
+            return eval_bits(env[e['n']], bl)
+        if k == 'Path' and (e.get('d') or '').endswith('::BITS'):
+            return 64 if 'u64' in e['d'] or 'i64' in e['d'] else (32 if '32' in e['d'] else None)
+        if k == 'MCall' and e['n'] == 'leading_zeros':
+            return 64 - bl
+        if k == 'MCall' and e['n'] == 'div_ceil' and e['a']:
+            a, b = eval_bits(e['r'], bl), eval_bits(e['a'][0], bl)
+            return None if a is None or not b else -(-a // b)
+        if k == 'Binary':
+            a, b = eval_bits(e['x'], bl), eval_bits(e['y'], bl)
+            if a is None or b is None:
+                return None
+            op = e['op']
+            if op in ('/', '%') and b == 0:
+                return None
+            return {'+': lambda: a + b, '-': lambda: a - b, '*': lambda: a * b, '/': lambda: a // b, '%': lambda: a % b}.get(op, lambda: None)()
+        return None
+    if cnt.get('k') == 'MCall' and cnt['n'] == 'len' and T.peel(cnt['r']).get('k') == 'Local':
+        vec = T.peel(cnt['r'])['n']
+        if normalizing_loop(vec):
+            chk.ok('C15-R6', 'count=len(digits)', sample='digit count = %s.len(), filled while rest > 0 { push(rest & 0x7fff); rest >>= 15 }' % vec)
+        else:
+            chk.bad('C15-R6', where, 'loop', 'the TYPE_LONG digit vector `%s` is not filled by a loop that stops when the remaining value is 0: a leading zero digit can be written' % vec,
+                    VALUE, cnt.get('l'))
+    else:
+        wrong = []
+        unknown = False
+        for bl in range(32, 65):
+            got = eval_bits(cnt, bl)
+            if got is None:
+                unknown = True
+                break
+            if got != -(-bl // 15):
+                wrong.append((bl, got, -(-bl // 15)))
+        if unknown:
+            chk.bad('C15-R6', where, 'count', 'the digit count `%s` of the TYPE_LONG header is neither the length of the normalizing loop\'s vector nor an evaluable function of the '
+                    'bit length: a leading zero digit (rejected by CPython as unnormalized) cannot be excluded' % T.show(cnt)[:60], VALUE, cnt.get('l'))
+        elif wrong:
+            bl, got, want = wrong[0]
+            chk.bad('C15-R6', where, 'count', 'the digit count `%s` gives %d digits for a %d-bit value (and for %d other bit lengths) where the value has %d: CPython rejects the constant '
+                    'as "bad marshal data (unnormalized long data)"' % (T.show(env.get(cnt.get('n'), cnt))[:70], got, bl, len(wrong) - 1, want), VALUE, cnt.get('l'))
+        else:
+            chk.ok('C15-R6', 'count=ceil(bits/15)', sample='digit count `%s` equals ceil(bits / 15) for bits 32..64' % T.show(cnt)[:60])
+
+
 def run(chk):
     fx = F.Facts()
     chk.rule('C15-R1', 'CodeObj::into_bytes/dump_locals (writer) and CodeObj::from_bytes/deserialize_locals (reader) list the same fields, in the same order, under the same '
@@ -208,6 +315,7 @@ def run(chk):
     c01.writer_casts(chk, fx, 'C15-R4')
     if chk.tier == 'thorough':
         cross_check_marshal(chk)
+    long_rule(chk, fx)
     return ('Sibling cross-check of the code-object writer and reader (ordered field / version / encoding lists from typed HIR), marshal type-code table, '
             'panicking-operation audit of the reader, cast audit of the writers. Value equality after marshal.loads for strings/tuples is a run-time fact and is not decided.'), {}
 
